@@ -157,6 +157,55 @@ def oracle(case, est=None):
     return None
 
 
+def frame_order_probe(rng):
+    """names captured from a DataFrame at fit time label columns BY NAME: a later DataFrame with the same names in another
+    order must be rejected, or be consumed by name - never silently by position (the output names would then label the
+    wrong columns)"""
+    import pandas
+    rs = np.random.RandomState(rng.randint(0, 2 ** 31 - 1))
+    nx, nu = rng.randint(1, 3), rng.randint(0, 2)
+    ep = rng.random() < 0.5
+    n = 8
+    cols = given_names(rng, nx + nu)
+    data = rs.uniform(-1, 1, (n, nx + nu)) * np.arange(1, nx + nu + 1)
+    names = (['episode'] if ep else []) + cols
+    full = np.hstack((np.zeros((n, 1)), data)) if ep else data
+    df = pandas.DataFrame(full, columns=names)
+    kind = rng.choice(['poly', 'delay', 'pipeline', 'split'])
+    if kind == 'poly':
+        est = pykoop.PolynomialLiftingFn(order=2)
+    elif kind == 'delay':
+        est = pykoop.DelayLiftingFn(1, 1)
+    elif kind == 'split':
+        est = pykoop.SplitPipeline(lifting_functions_state=[('pl', pykoop.PolynomialLiftingFn(order=2))],
+                                   lifting_functions_input=None)
+    else:
+        est = pykoop.KoopmanPipeline(lifting_functions=[('pl', pykoop.PolynomialLiftingFn(order=2)), ('dl', pykoop.DelayLiftingFn(1, 0))],
+                                     regressor=pykoop.Edmd())
+    est.fit(df, n_inputs=nu, episode_feature=ep)
+    want = est.transform(df)
+    perm = cols[:]
+    for _ in range(10):
+        rng.shuffle(perm)
+        if perm != cols:
+            break
+    if perm == cols:
+        return None, None
+    dfp = df[(['episode'] if ep else []) + perm]
+    tag = {'part': 'frame-order', 'estimator': kind}
+    case = {'estimator': kind, 'fit_columns': names, 'call_columns': list(dfp.columns), 'n_inputs': nu, 'episode_feature': ep}
+    try:
+        got = est.transform(dfp)
+    except Exception:
+        return None, None          # rejected: fine
+    if got.shape != want.shape or not np.allclose(got, want, rtol=1e-12, atol=0):
+        names_out = list(est.get_feature_names_out())
+        return (f'{type(est).__name__} fitted on columns {names} accepts a DataFrame with columns {list(dfp.columns)} and consumes it '
+                f'by position: the output column named {names_out[1 if ep else 0]!r} holds the data of column '
+                f'{dfp.columns[1 if ep else 0]!r}'), case, tag
+    return None, None
+
+
 def given_names(rng, n):
     pool = ['alpha', 'beta', 'gamma', 'pos', 'vel', 'acc', 'tau', 'q', 'w', 'z']
     return rng.sample(pool, n)
@@ -249,6 +298,11 @@ def run(ctx):
             if why:
                 ctx.fail(why, c, {'kinds': sorted(pipes.kinds_in(c['spec']))})
                 return
+    for _ in range(ctx.n(12, 100)):
+        res = frame_order_probe(ctx.rng)
+        ctx.count('frame-order probe')
+        if res[0]:
+            ctx.fail(res[0], res[1], res[2])
     return ctx.finish('proof', search)
 
 
